@@ -4,6 +4,8 @@ import (
 	"bytes"
 	"encoding/json"
 	"fmt"
+	"sort"
+	"strings"
 
 	"github.com/vektah/gqlparser/v2/ast"
 
@@ -16,6 +18,8 @@ type OObj struct {
 	Keys     []string
 	Vals     map[string]interface{}
 	Abstract bool // the value sits at an interface/union-typed position
+	// Outsiders: concrete object types of the schema that are NOT possible at this position
+	Outsiders []string
 }
 
 func (o *OObj) Set(k string, v interface{}) {
@@ -198,6 +202,18 @@ func (g *respGen) value(t *ast.Type, sub ast.SelectionSet, depth int) interface{
 		}
 		o := g.object(sub, ps[g.r.Intn(len(ps))], depth)
 		o.Abstract = true
+		in := map[string]bool{}
+		for _, p := range ps {
+			in[p] = true
+		}
+		var names []string
+		for n, d := range g.schema.Types {
+			if d.Kind == ast.Object && !in[n] && !strings.HasPrefix(n, "__") && n != "Query" && n != "Mutation" && n != "Subscription" {
+				names = append(names, n)
+			}
+		}
+		sort.Strings(names)
+		o.Outsiders = names
 		return o
 	}
 	return nil
